@@ -34,7 +34,7 @@ type c11Stats struct {
 }
 
 const c11Rule = "rapid-generated histories on the multihash primary (small files, one fixed low-use threshold 1..100 per case, every GC cycle preceded by a flush as the statement requires) followed by a generated kill phase that removes or overwrites every key living in a non-current primary file and rewrites every bucket that refers into a non-current index file, flush, then [primary cycle, index cycle, flush] repeated (the index cycles with the scan for unreferenced files every other time, never, or always - drawn per case); " +
-	"oracle = validity predicates: the directory becomes byte-identical across two consecutive rounds within 10+3*(records+files) rounds; at that fixed point every targeted primary file and every unreferenced targeted index file has length 0 or is gone, a dead non-empty file that is the oldest one when the first cycle visits it is unlinked and the first-file number advances past it, no non-current primary file with live records is low-use by the case's threshold; StorageSize right after a cycle <= StorageSize right before it + 2, and growth at the following flush <= outstanding work reported before that flush + 2; contents still equal the reference map; " +
+	"oracle = validity predicates: the directory becomes byte-identical across two consecutive rounds within 10+3*(records+files) rounds; at that fixed point every targeted primary file and every unreferenced targeted index file has length 0 or is gone, a dead non-empty file that is the oldest one when the first cycle visits it is unlinked and the first-file number advances past it, no non-current primary file with live records is low-use by the case's threshold; StorageSize right after a cycle <= StorageSize right before it + 2, and growth at the following flush <= outstanding work reported before that flush + 2; contents still equal the reference map; after a close/reopen and three more cycles an empty non-current file is never the header's first file; " +
 	"non-trivial = the kill phase emptied >=2 primary files one of which was not the oldest; distinct = distinct canonical JSON of the case"
 
 func genC11(t *rapid.T) C11Case {
@@ -386,6 +386,40 @@ func c11Closure(r *seqRunner, step int, c C11Case, pc *pointCounter, csp *c11Sta
 			freeMin := free * 4 / 5
 			if busy > 0 && 100*freeMin >= int64(c.LowUse)*(freeMin+busy) {
 				return viol("low-use-file-not-drained|fixedpoint|", step, "primary file %d has %d live and %d free bytes (threshold %d%%) at the GC fixed point and was not drained", n, busy, free, c.LowUse)
+			}
+		}
+		if !afterCleanHistory {
+			return nil
+		}
+		// ---- after a restart. A file that was emptied while an older file was
+		// still alive is not looked at again by the same process; a new process
+		// visits every file again, and "it is unlinked when it is the oldest
+		// file at the time it is visited" applies to it: an empty file must not
+		// stay the oldest one, and no empty file may sit below the first live one.
+		if v := r.closeStore(step, "c11-restart"); v != nil {
+			return v
+		}
+		s2, err := openStore(r.dir, cfg)
+		if err != nil {
+			return viol("open-error|c11-restart|"+errClass(err), step, "reopen after the fixed point: %v", err)
+		}
+		r.s = s2
+		if mp2 := mhPrimaryOf(s2); mp2 != nil {
+			for n := 0; n < 3; n++ {
+				if _, err := mp2.GC(gcCtx(0), int64(c.LowUse)); err != nil {
+					r.stats.GCErrors = append(r.stats.GCErrors, "pgc: "+errClass(err))
+				}
+				if err := s2.Flush(); err != nil {
+					return viol("flush-error|c11-restart|"+errClass(err), step, "Flush: %v", err)
+				}
+			}
+		}
+		prim = fileSizes(r.dir, dataBase)
+		curPrim, _ = maxKey(prim)
+		if ph, err := readJSONHeader(filepath.Join(r.dir, dataBase+".info")); err == nil {
+			first := uint32(hdrInt(ph, "FirstFile"))
+			if sz, exists := prim[first]; exists && sz == 0 && first < curPrim {
+				return viol("oldest-dead-file-not-unlinked|after-restart|empty-first-file-kept", step, "primary file %d is empty, is the header's first file and is not the current file (%d); three GC cycles of a freshly opened store visited it and did not unlink it", first, curPrim)
 			}
 		}
 		return nil
